@@ -10,8 +10,14 @@ import z3
 _counter = itertools.count(1)
 
 
+import re as _re
+
+_BAD = _re.compile(r"[^A-Za-z0-9_.$]")
+
+
 def fresh_name(base: str) -> str:
-    return f"{base}!{next(_counter)}"
+    # only characters legal in unquoted SMT-LIB symbols, so dumps parse in every back end
+    return f"{_BAD.sub('_', base)}${next(_counter)}"
 
 
 def fresh_int(base: str) -> z3.ArithRef:
